@@ -17,14 +17,14 @@ RULE = ('trees: (a) parser output on every accepted string of the exhaustive tok
         'WF-T generator plus missing targets, nested and top-level empty nodes, "(a /)", anonymous '
         'role, quoted strings containing ( ) / : ~ # and escapes, alignments on roles/concepts/'
         'targets, depth to 60, width to 12; metadata: 0-4 keys, values with leading blanks, ; ( ) " # '
-        'VT FF NEL U+2028 U+2029 NBSP, empty values; options indent in {None,-1,0,1,2,3,7,40} x '
+        'VT FF NEL U+2028 U+2029 NBSP, empty values; (c) input texts whose comment lines carry 0-4 "::key value" groups per line with irregular blanks between them; options indent in {None,-1,0,1,2,3,7,40} x '
         'compact in {False,True} (all 16 per tree); through penman.parse/format, iterparse and the '
         'codec methods. Non-trivial: the tree has >=2 nodes or metadata or an alignment.')
 ANCHORS = ['penman._format:format', 'penman._format:_format_node', 'penman._format:_format_edge',
            'penman._parse:_parse_comments', 'penman._parse:_parse_node', 'penman._parse:_parse_edge']
 PROBES = {'C07': 20, 'C08': 20, 'C17': 10}
 MIN_EVAL = {'quick': 8000, 'thorough': 200000}
-REQUIRED_COUNTERS = ['with_metadata', 'leading_blank_value', 'empty_node', 'missing_target',
+REQUIRED_COUNTERS = ['with_metadata', 'leading_blank_value', 'multi_key_metadata_lines', 'empty_node', 'missing_target',
                      'compact_differs', 'parser_produced']
 INDENTS = [None, -1, 0, 1, 2, 3, 7, 40]
 OPTS = [(i, c) for i in INDENTS for c in (False, True)]
@@ -50,6 +50,7 @@ def cases(ctx):
         if not ctx.time_left():
             break
         yield 'rand', {'i': i}
+        yield 'meta', {'i': i}
 
 
 def rand_meta(rng):
@@ -174,6 +175,22 @@ def oracle(ctx, kind, p):
                 ctx.count('missing_target')
             if t.metadata:
                 ctx.count('with_metadata')
+    elif kind == 'meta':
+        # accepted *input texts* with multi-key metadata lines and irregular spacing
+        rng = ctx.rng('meta', p['i'])
+        lines = [S.comment_line(rng) for _ in range(rng.randrange(1, 4))]
+        node = T.rand_tree(rng, M.get('default')[2], n_nodes=rng.choice([1, 2, 3]))
+        s = '\n'.join(lines) + '\n' + penman.format(Tree(node), indent=rng.choice([None, -1, 2]))
+        ctx.current = ['text', {'s': s}]
+        ok, t = ctx.call(penman.parse, s, clause='parse(input)')
+        if ok:
+            ctx.count('multi_key_metadata_lines', sum(ln.count('::') >= 2 for ln in lines))
+            check_tree(ctx, t.node, dict(t.metadata),
+                       opts=[(None, False), (-1, False), (2, True), (0, False)], det={'source': s[:300]})
+            ctx.evaluations += 3
+            ctx.case(s, bool(t.metadata))
+            if ctx.want_sample() and len(t.metadata) >= 3:
+                ctx.sample({'source': s[:300], 'metadata': dict(t.metadata)})
     elif kind == 'text':
         t = penman.parse(p['s'])
         check_tree(ctx, t.node, dict(t.metadata), det={'source': p['s']})
